@@ -627,7 +627,52 @@ def rule_k(ctx, out):
         raise AnalysisError(f"smt_translate_block: only {n} translation sites found")
 
 
+def rule_l(ctx, out):
+    """The sub-block after a split instruction starts from the stack that instruction leaves: get_new_source_stack puts the variable the
+    split instruction assigns on top.  The function is interpreted on the lines the translation emits for result-bearing split
+    instructions, in the spellings the translator really uses (taken from the string constants of ir_block: ` = call(`, and the doubled
+    `s(k) =  = create2(` of CREATE2): whatever the spelling of the assignment, the new source stack is s(k) ... s(0) with k the index of the
+    assigned variable."""
+    from ..core.interp import ModuleInterp
+    from ..core.minieval import Unsupported, Raised
+    f = ctx.func(f"{GO}.get_new_source_stack")
+    tr = ctx.p.module("sfs_generator.ir_block")
+    # right-hand sides as the translator writes them: constants that start an assignment of a call-like result
+    heads = sorted({c.value.split("(")[0] for c in ast.walk(tr.tree) if isinstance(c, ast.Constant) and isinstance(c.value, str)
+                    and c.value.lstrip().startswith("=") and c.value.rstrip().endswith("(") and any(k in c.value for k in ("call", "create", "static"))})
+    if len(heads) < 4:
+        raise AnalysisError(f"only {len(heads)} result-bearing split instructions found in the translator's string constants")
+    # CREATE2 is written `v1 + " = " + <" = create2(...">`: every head is tried with one and with two assignment signs
+    mi = ModuleInterp(ctx, max_steps=20000)
+    n = 0
+    seen = set()
+    for head in heads:
+        for lhs_idx in (0, 3, 12):
+            for line in (f"s({lhs_idx}){head}(s(9), s(8))", f"s({lhs_idx}) = {head.lstrip()}(s(9), s(8))"):
+                n += 1
+                try:
+                    got = mi.call(f, line, "nop(CALL)", 20)
+                except (Raised, Unsupported) as e:
+                    key = f"source-stack-after-split:raises:{head.strip('= ')}"
+                    if key not in seen:
+                        seen.add(key)
+                        out.bad(key, f"get_new_source_stack fails on the line `{line}`: {e}", where(f))
+                    continue
+                want = ([f"s({k})" for k in range(lhs_idx, -1, -1)], lhs_idx)
+                if (list(got[0]), got[1]) == want:
+                    out.ok()
+                else:
+                    key = "source-stack-after-split:result-not-on-top" + (":doubled-sign" if "=  =" in line or "= =" in line else "")
+                    if key in seen:
+                        out.instances += 1
+                        continue
+                    seen.add(key)
+                    out.bad(key, f"get_new_source_stack(`{line}`) = {got}: the next sub-block must start from {want[0][:3]}… (the variable the split "
+                            f"instruction assigns on top)", where(f))
+
+
 RULES = [
+    ("C14.l", "the sub-block after a result-bearing split instruction starts from its result", 24, rule_l),
     ("C14.k", "the reported sub-blocks are the ones the specifications were written for", 2, rule_k),
     ("C14.j", "call sites and signatures agree on the order of arguments", 1, rule_j),
     ("C14.i", "functions handed the sub-block list leave it intact (by evaluation)", 5, rule_i),
